@@ -1,4 +1,53 @@
-import CacheVerif.Spec.AMap
+import CacheVerif.Proofs.ProtoData
+import CacheVerif.Props.C03
+import CacheVerif.Proofs.SlotMapOfHindsight
+import CacheVerif.Props.C10
+/-!
+# C04 — `MapOf` (generic keys) is linearizable, also across grow, shrink and Clear
+
+As C03, for the generic table: slot level = meta byte + immutable entry pointer (`Model.SlotMapOf`); the protocol
+level is the same model M4a (`mapof.go` has the same resize / lock protocol as `map.go`; the trace correspondence
+runs on both); sequential level = M3 with the MapOf variant, for **every** hash function including fully
+colliding ones (`Props/C10`, `Props/C11`).
+-/
 namespace Props.C04
-theorem placeholder : True := trivial
+open Model.SlotMapOf Proofs.SlotMapOfHindsight
+
+variable {K V : Type} [DecidableEq K] (h2 : K → Nat)
+
+/-- **the lock-free `Load` is atomic** for any `h2` (any hash, also one under which all keys collide): its result was
+the chain's logical content for its key at some instant inside the call — a reader never observes a key paired
+with another key's value -/
+theorem C04_reader_hindsight (k0 : K) (pre mid : List (Act K V)) (t : Tid) (k : K) (s : St K V)
+    (hns : ∀ a ∈ mid, ∀ k', a ≠ Act.start t k')
+    (hrun : run h2 (init k0) (pre ++ [Act.start t k] ++ mid) = some s)
+    (hdone : (s.r t).pc = .done) :
+    ∃ j, j ≤ mid.length ∧ ∃ s', run h2 (init k0) (pre ++ [Act.start t k] ++ mid.take j) = some s' ∧
+      content h2 s'.g k = (s.r t).result :=
+  reader_hindsight h2 k0 pre mid t k s hns hrun hdone
+
+/-- the slot representation invariant holds in every reachable chain state -/
+theorem C04_slot_invariant (k0 : K) (as : List (Act K V)) (s : St K V) (h : run h2 (init k0) as = some s) :
+    Proofs.SlotMapOfInv.Inv h2 s.g :=
+  inv_reachable h2 k0 as s h
+
+/-- a reader running alone finishes within `(S+3)·max(chain length, 1)` of its own steps, from any state, and
+returns the current logical content -/
+theorem C04_solo_reader (g : G K V) (k : K) (hI : Proofs.SlotMapOfInv.Inv h2 g) :
+    ∃ n, n ≤ (S + 3) * max g.buckets.length 1 ∧
+      (soloReader h2 g { key := k, pc := .rdMeta 0, result := none } n).pc = .done ∧
+      (soloReader h2 g { key := k, pc := .rdMeta 0, result := none } n).result = content h2 g k := by
+  obtain ⟨n, hn, hd⟩ := solo_terminates h2 g k
+  exact ⟨n, hn, hd, solo_result_gen h2 g k hI n hd⟩
+
+/-- the protocol-level theorems of C03 (`C03_resize_preserves_content`, `C03_content_changes_only_at_commit_or_clear`,
+`C03_commit_changes_only_its_key`, `C03_clear_empties`, `C03_no_writer_in_copied_bucket`) are about M4a, which is the
+common model of `map.go` and `mapof.go`; restated here for the MapOf parameters (any bucket function = any hasher) -/
+theorem C04_resize_preserves_content {K V : Type} [DecidableEq K] (p : Model.Proto.Params K) (hmin : 0 < p.minLen)
+    (s : Model.Proto.St K V) (h : Model.Proto.Reach p s) (t : Model.Proto.Tid) (c : Model.Proto.Choice K V)
+    (g' : Model.Proto.G K V) (l' : Model.Proto.L K V)
+    (hpc : (s.l t).pc = .rzPublish) (hh : (s.l t).hint ≠ .clear) (hs : Model.Proto.tstep p t s.g (s.l t) c = some (g', l')) :
+    ∀ k, Proofs.ProtoData.absGet g' k = Proofs.ProtoData.absGet s.g k :=
+  C03.C03_resize_preserves_content p hmin s h t c g' l' hpc hh hs
+
 end Props.C04
